@@ -1,6 +1,39 @@
-"""Builds py/verifpool.cpp against the freshly built libPyImath (used by tools/py_driver.py via spec["ext"])."""
-import glob, os, subprocess, sys
+"""Builds py/verifpool.cpp against the freshly built libPyImath (used by tools/py_driver.py via spec["ext"]),
+py/verifdigest.cpp, and (plain variant only) every py/verifref_*.cpp -> <out>/verifref_<family>.so: the reference modules
+of py/c20_scalar.py, which call the Imath library directly and link only against libImath and Boost.Python."""
+import glob, hashlib, os, subprocess, sys
 import check
+
+
+def _verifref_cmds(b, out):
+    """[(cmd, target)] for the reference modules that are out of date (sources, shared headers, the library's headers,
+    ImathConfig.h or the command line changed since the .so was written)."""
+    srcs = sorted(glob.glob(os.path.join(check.VERIF, "py", "verifref_*.cpp")))
+    if not srcs:
+        return []
+    imlib = os.path.join(b, "src/Imath")
+    deps = glob.glob(os.path.join(check.VERIF, "py", "verifref_*.hpp")) + glob.glob(os.path.join(check.REPO, "src/Imath", "*.h")) + \
+        [os.path.join(b, "config", "ImathConfig.h")] + glob.glob(os.path.join(imlib, "libImath*.so*"))
+    newest_dep = max(os.path.getmtime(f) for f in deps if os.path.exists(f))
+    cmds = []
+    for src in srcs:
+        name = os.path.basename(src)[:-4]
+        tgt = os.path.join(out, name + ".so")
+        cmd = ["g++", "-O1", "-std=c++14", "-shared", "-fPIC", "-pthread", "-w", src, "-o", tgt,
+               "-I/usr/include/python3.11", "-I" + os.path.join(check.VERIF, "py"), "-I" + os.path.join(b, "config"),
+               "-I" + os.path.join(check.REPO, "src/Imath"), "-L" + imlib, "-lImath", "-lboost_python311", "-Wl,-rpath," + imlib]
+        stamp = tgt + ".cmd"
+        sig = hashlib.sha1(" ".join(cmd).encode()).hexdigest()
+        fresh = (os.path.exists(tgt) and os.path.exists(stamp) and open(stamp).read() == sig and
+                 os.path.getmtime(tgt) > max(newest_dep, os.path.getmtime(src)))
+        if not fresh:
+            cmds.append((cmd, tgt, stamp, sig))
+    # modules whose source has been removed must not linger on the import path
+    keep = {os.path.basename(s)[:-4] + ".so" for s in srcs}
+    for f in glob.glob(os.path.join(out, "verifref_*.so")):
+        if os.path.basename(f) not in keep:
+            os.remove(f)
+    return cmds
 
 
 def build(b, variant=""):
@@ -22,9 +55,25 @@ def build(b, variant=""):
         "-I/usr/include/python3.11", "-I" + os.path.join(check.REPO, "src/python/PyImath"),
         "-I" + os.path.join(b, "config"), "-I" + os.path.join(b, "src/python/config"), "-I" + os.path.join(check.REPO, "src/Imath"),
         "-L" + libdir, "-l" + lib, "-L" + os.path.join(b, "src/Imath"), "-lboost_python311", "-Wl,-rpath," + libdir]
+    jobs = [(cmd, None, None, None), (cmd2, None, None, None)]
+    if variant == "":
+        jobs += _verifref_cmds(b, out)     # the sanitizer variants do not run c20_scalar.py
     from concurrent.futures import ThreadPoolExecutor
-    with ThreadPoolExecutor(2) as ex:
-        rs = list(ex.map(lambda c: subprocess.run(c, stdout=subprocess.PIPE, stderr=subprocess.STDOUT, text=True), [cmd, cmd2]))
+
+    def run(job):
+        c, tgt, stamp, sig = job
+        if stamp and os.path.exists(stamp):
+            os.remove(stamp)
+        if tgt:                             # write to a private name, then rename: a concurrent check may be importing the old file
+            tmp = "%s.%d.tmp" % (tgt, os.getpid())
+            c = [tmp if x == tgt else x for x in c]
+        r = subprocess.run(c, stdout=subprocess.PIPE, stderr=subprocess.STDOUT, text=True)
+        if r.returncode == 0 and tgt:
+            os.replace(tmp, tgt)
+            open(stamp, "w").write(sig)
+        return r
+    with ThreadPoolExecutor(16) as ex:
+        rs = list(ex.map(run, jobs))
     for r in rs:
         if r.returncode:
             sys.stderr.write(r.stdout[-5000:]); raise SystemExit(2)
